@@ -607,7 +607,11 @@ theorem restored_progress (cfg : List (RunC κ)) (H : Harness) (nfiles : Nat) (h
                 simp only [rowsOf, hc, hout, numberDPs, List.flatMap_cons, List.mem_append]
                 left
                 simp only [dpProj, List.mem_map]
-                exact ⟨me, hme, rfl⟩
+                have hme' : me ∈ totalLast ms := by
+                  unfold totalLast
+                  simp only [List.mem_append, List.mem_filter, decide_eq_true_eq]
+                  exact .inr ⟨hme, hcrit⟩
+                exact ⟨me, hme', rfl⟩
               refine ⟨{ k := c.key, inv := m i, it := 1 }, ?_, rfl, rfl⟩
               rw [hls]
               simp only [totalsOfRows, List.mem_map, List.mem_filter, Bool.and_eq_true, decide_eq_true_eq]
